@@ -40,6 +40,8 @@ Allowed rewrites (each is logged per function and reported in the evidence):
       extractor (blanks separate; identifier runs and single punctuation characters are tokens) interleaved, in order, with
       toks(x@) for a String argument x and dec_tok(n) for an integer argument n.  An argument that touches an identifier
       character of the literal or another argument cannot be tokenised this way => out of reach (exit 2).
+  R15 `x.replace(&a, &b)` on a String -> verif_io::str_replace(&x, &a, &b): the resulting text is an uninterpreted function of the
+      three texts (std's str::replace has no Verus specification); nothing is claimed about the text itself
   R10 a local variable named `int` (a Verus builtin type name) is renamed `int_no`
   R9 print arguments: a slice of the source text `&x[a..b]` is logged as an opaque value (its rendering, and the slicing
      itself, are NOT checked); an identifier named by `//@str <ident>` is a String and is logged as verif_io::str_id(&ident)
@@ -429,10 +431,17 @@ class Extractor:
         if "std::io::stdin().read_line(" in body:
             body = body.replace("std::io::stdin().read_line(", "verif_io::read_line(Tracked(verif_in), ")
             self.rewrites.append(f"{what}: R4 stdin read_line -> ghost input log")
-        b4 = re.sub(r'\b(\w+)\s*==\s*("(?:[^"\\]|\\.)*")', r"verif_io::str_eq(&\1, \2)", body)
+        # (a field path such as `token.1` holds a &str: compared through the same helper, generic over the two string types)
+        b4 = re.sub(r'(?<![\w.])((?:\w+\.)+\w+)\s*==\s*("(?:[^"\\]|\\.)*")', r"verif_io::strref_eq(\1, \2)", body)
+        b4 = re.sub(r'(?<![\w.])(\w+)\s*==\s*("(?:[^"\\]|\\.)*")', r"verif_io::str_eq(&\1, \2)", b4)
         if b4 != body:
             body = b4
             self.rewrites.append(f"{what}: R8 String == literal -> verif_io::str_eq")
+        # R15: `x.replace(&a, &b)` on a String (str::replace has no Verus specification) -> an uninterpreted function of the three texts
+        b5 = re.sub(r"(?<![\w.])(\w+)\.replace\(\s*&(\w+)\s*,\s*&(\w+)\s*\)", r"verif_io::str_replace(&\1, &\2, &\3)", body)
+        if b5 != body:
+            body = b5
+            self.rewrites.append(f"{what}: R15 String::replace -> verif_io::str_replace (uninterpreted text)")
         if "std::io::stdout().flush()" in body:
             body = body.replace("std::io::stdout().flush()", "verif_io::flush()")
             self.rewrites.append(f"{what}: R8 stdout flush -> verif_io::flush()")
